@@ -212,6 +212,83 @@ def record_slip132(run: Run, n: int) -> list[dict[str, Any]]:
     return evs
 
 
+def record_wave3(run: Run, thorough: bool) -> tuple[list[dict[str, Any]], list[dict[str, Any]]]:
+    """(events for C07Trace, address events for C06Trace).  Keys spelled with every SLIP132 version handed to slip132.*_xkey; derive_from_account_range in its
+    two spellings beyond index 0xFFFF (max_index raised) and beyond branches 0/1; bip44.address_from_der_path from every key along a path and from keys off it."""
+    from btclib import bip44, slip132
+    from btclib.bip32 import bip32
+    from btclib.bip32.bip32 import BIP32KeyData
+    from btclib.to_pub_key import pub_keyinfo_from_key
+
+    rnd = random.Random(run.seed + 333)
+    evs: list[dict[str, Any]] = []
+    addr_evs: list[dict[str, Any]] = []
+
+    def payload(xkey: Any) -> str:
+        return xkey if isinstance(xkey, str) and (xkey == "refused" or xkey.startswith("foreign")) else BIP32KeyData.b58decode(xkey).serialize(check_validity=False).hex()
+
+    # 1. every SLIP132 spelling of a key, both networks, private and public
+    prv_versions = ["0488ade4", "049d7878", "0295b005", "04b2430c", "02aa7a99", "04358394", "044a4e28", "024285b5", "045f18bc", "02575048"]
+    pub_versions = ["0488b21e", "049d7cb2", "0295b43f", "04b24746", "02aa7ed3", "043587cf", "044a5262", "024289ef", "045f1cf6", "02575483"]
+    seed = rnd.randbytes(32)
+    for pv, uv in zip(prv_versions, pub_versions):
+        root = _x(lambda: bip32.rootxprv_from_seed(seed, bytes.fromhex(pv)))
+        if not isinstance(root, str) or root == "refused" or root.startswith("foreign"):
+            continue
+        xpub = _x(lambda: bip32.xpub_from_xprv(root))
+        for kind, fn in (("p2pkh", slip132.p2pkh_xkey), ("p2wpkh_p2sh", slip132.p2wpkh_p2sh_xkey), ("p2wpkh", slip132.p2wpkh_xkey)):
+            for xkey, path in ((root, [H + 84, H + 1, H]), (root, [3]), (xpub, [0, 5])):
+                out = _x(lambda: fn(xkey, path))
+                evs.append({"op": "slip132", "fn": f"slip132.{kind}_xkey of a key of version {pv if xkey is root else uv}", "kind": kind, "xkey": payload(xkey), "path": [nat(i) for i in path], "out": payload(out)})
+    # 2. the range forms: one call for many indexes is the keys `derive` gives one by one, wherever the caller has put the bounds
+    acct = bip32.xpub_from_xprv(bip32.derive(bip32.rootxprv_from_seed(seed), "m/84h/0h/0h"))
+    acct_obj = BIP32KeyData.b58decode(acct)
+    for branch, idxs, only01, mx in ((0, [0, 1, 0xFFFF], True, 0xFFFF), (1, [0x10000, 0x10001, 0x7FFFFFFF], True, 0x7FFFFFFF), (0, [0xFFFF, 0x10000], True, 0x10000),
+                                      (0x10000, [0, 0x10000], False, 0x7FFFFFFF), (7, [5], False, 0xFFFF), (1, [0xFFFFFF], True, 0xFFFFFF)):
+        for spelling, thunk in (("text", lambda: bip32.derive_from_account_range(acct, branch, idxs, only01, mx)),
+                                ("object", lambda: [k.b58encode() for k in bip32.derive_from_account_range_(acct_obj, branch, idxs, only01, mx)])):
+            got = _x(thunk)
+            for j, idx in enumerate(idxs):
+                one = got[j] if isinstance(got, list) and len(got) == len(idxs) else (got if isinstance(got, str) else "foreign: another number of keys")
+                evs.append({"op": "derive", "tag": "range", "fn": f"derive_from_account_range ({spelling} spelling, max_index {mx:#x}, branches_0_1_only {only01})", "xkey": payload(acct),
+                            "path": [nat(branch), nat(idx)], "out": payload(one)})
+    # 3. BIP44 paths from a key partway down them
+    for purpose, coin, ver, fn_name in ((44, 0, "0488ade4", "p2pkh"), (49, 0, "0488ade4", "p2wpkh_p2sh"), (84, 0, "0488ade4", "p2wpkh"), (84, 1, "04358394", "p2wpkh"), (44, 1, "04358394", "p2pkh")):
+        root = bip32.rootxprv_from_seed(rnd.randbytes(32), bytes.fromhex(ver))
+        path = [H + purpose, H + coin, H + 2, 1, 7]
+        net = "mainnet" if coin == 0 else "testnet"
+        starts: list[tuple[str, Any]] = [("the master key", root)]
+        for depth in range(1, 6):
+            k_on = bip32.derive(root, path[:depth])
+            starts.append((f"the key at depth {depth}", k_on))
+            if depth >= 3:
+                starts.append((f"the public key at depth {depth}", bip32.xpub_from_xprv(k_on)))
+            # off the path at this depth: the sibling index, the other branch, the hardened / unhardened twin
+            for label, alt in (("a sibling", path[depth - 1] + 1), ("the twin across the hardened line", path[depth - 1] ^ H), ("index 0", 0 if path[depth - 1] != 0 else 2)):
+                k_off = _x(lambda: bip32.derive(root, path[:depth - 1] + [alt]))
+                if isinstance(k_off, str) and k_off != "refused" and not k_off.startswith("foreign"):
+                    starts.append((f"{label} of the key at depth {depth}", k_off))
+                    if depth >= 3:
+                        starts.append((f"{label} of the key at depth {depth}, public", bip32.xpub_from_xprv(k_off)))
+        for label, start in starts:
+            addr = _x(lambda: bip44.address_from_der_path(start, path))
+            refused = isinstance(addr, str) and addr == "refused"
+            if isinstance(addr, str) and addr.startswith("foreign"):
+                evs.append({"op": "bip44", "what": label, "xkey": payload(start), "path": [nat(i) for i in path], "out": addr})
+                continue
+            # the key the address is of: read from the library's own derivation from this start (recorded beside it as a derive event the specification checks)
+            node = BIP32KeyData.b58decode(start)
+            rest = path[node.depth:]
+            end = _x(lambda: bip32.derive(start, rest))
+            evs.append({"op": "derive", "tag": "bip44", "fn": "derive (the rest of a BIP44 path)", "xkey": payload(start), "path": [nat(i) for i in rest], "out": payload(end)})
+            sec = pub_keyinfo_from_key(end)[0].hex() if isinstance(end, str) and end != "refused" and not end.startswith("foreign") else ""
+            key_hex = BIP32KeyData.b58decode(end).key.hex() if sec else ""
+            evs.append({"op": "bip44", "what": label, "xkey": payload(start), "path": [nat(i) for i in path], "out": "refused" if refused else key_hex})
+            if not refused and sec:
+                addr_evs.append({"op": "keyaddr", "fn": fn_name, "kind": "sec", "prefix": "", "sec": sec, "net": net, "out": {"refused": False, "v": addr.encode().hex()}, "what": f"bip44 {purpose}h/{coin}h from {label}"})
+    return evs, addr_evs
+
+
 def record_bip85(run: Run, n: int) -> list[dict[str, Any]]:
     """BIP85: the child entropy is HMAC-SHA512("bip-entropy-from-k", derived private key)."""
     from btclib import bip85
@@ -297,6 +374,8 @@ def check(run: Run) -> None:
     evs += record_more(run, thorough)
     evs += record_forced(run)
     evs += record_slip132(run, 6 if thorough else 2)
+    w3, addr_evs = record_wave3(run, thorough)
+    evs += w3
     for e in evs:
         if isinstance(e["out"], str) and e["out"].startswith("foreign"):
             run.violation(f"bip32|{e['op']}|{e.get('fn', '')}|foreign", f"{e.get('fn', e['op'])} raised {e['out']}", {"event": e})
@@ -308,6 +387,14 @@ def check(run: Run) -> None:
         e = evs2[k]
         run.violation(f"bip32|{e['op']}|{e.get('fn', '')}|{e.get('tag', '')}",
                       f"{e.get('fn', e['op'])} ({e.get('tag', '')}): btclib {str(e['out'])[:100]}, BIP32 gives {str(diag.get(k))[:100]}", {"event": e, "spec": diag.get(k)})
+    # the addresses bip44 answered, against the address specification (C06Trace: the address of a key on a network)
+    ares, abad, adiag = events.validate("C06Trace", [{k: v for k, v in e.items() if k != "what"} for e in addr_evs], batch=400)
+    for r in ares:
+        run.tlc(r, "V C06Trace (bip44 addresses)")
+    for k in abad:
+        e = addr_evs[k]
+        run.violation(f"bip32|bip44 address|{e['fn']}|{e['net']}", f"address_from_der_path ({e['what']}): btclib {bytes.fromhex(e['out']['v']).decode()}, the address of the key at the end of the path is {str(adiag.get(k))[:200]}",
+                      {"event": e, "spec": str(adiag.get(k)), "trace_module": "C06Trace"})
     run.sample({k: v for k, v in evs2[1].items()})
     run.section("ops", {fn: sum(1 for e in evs2 if e.get("fn", e["op"]) == fn) for fn in sorted({e.get("fn", e["op"]) for e in evs2})})
     run.count(evaluations=len(evs), validated=len(evs2), nontrivial=sum(1 for e in evs2 if e["op"] == "derive" and e["path"]))
@@ -318,7 +405,7 @@ def replay(path: str) -> int:
     e = body.get("event")
     if not e:
         return 0
-    _, bad, diag = events.validate("C07Trace", [e])
+    _, bad, diag = events.validate(body.get("trace_module", "C07Trace"), [{k: v for k, v in e.items() if k != "what"} if body.get("trace_module") else e])
     if bad:
         print(f"VIOLATION property=C07 replay={path}  # {diag}")
         return 1
